@@ -218,6 +218,7 @@ def run(ctx, rep):
     compose(ctx, rep, "C03", "C05.codes", r"^C03\.rfc$")
     from rules import C16 as _C16
     compose(ctx, rep, "C16", "C05.stream", r"^C16\.(gate|sync)$")
+    compose(ctx, rep, "C11", "C05.md5", r"^C11\.sentinel$", key_only=r"from_reader reports md5")
 
 
 def _closure_root(F, b):
